@@ -243,6 +243,8 @@ class Program:
         self.expanded_helpers = normalise.expand_new_helpers(trees)
         self.propagated_aliases = normalise.propagate_new_aliases(trees)
         normalise.desugar_quantifiers(trees)
+        self.comprehension_rewrites = normalise.comprehension_form(trees)
+        normalise.inline_new_temporaries(trees)
         for mod, rel, src in pending:
             self.modules[mod] = ModuleInfo(mod, rel, src, trees[rel])
         for rel in self.overrides:
